@@ -387,6 +387,26 @@ def r7(ctx, prog):
     ctx.floor(R, 3)
 
 
+def r8(ctx, prog):
+    R = ctx.rule("C03.R8", "an interior pointer is mapped back relative to the page's own block area: in _mi_page_ptr_unalign the offset that is masked / reduced modulo the "
+                           "block size is p − page->page_start (blocks above MI_MAX_ALIGN_GUARANTEE do not start at a multiple of their size, so the raw address must not be used)")
+    f = prog.fn("_mi_page_ptr_unalign")
+    pp = f.param_id(1)
+    n = 0
+    for x in f.all(kind="BinaryOperator"):
+        node = f.nodes[x]
+        if node["op"] not in ("&", "%") or f.cv(x) is not None or node.get("macro") in ("mi_assert_internal", "mi_assert"):
+            continue
+        t = rl.canon(f, node["c"][0]).replace(" ", "")
+        if "$1" not in t:
+            continue          # not an operation on the pointer
+        n += 1
+        ctx.check(R, t in ("($1-$0->page_start)",), f.where(x), "the reduced value is p - page->page_start (found %s)" % t, key="C03.R8:relative")
+    if n < 2:
+        ctx.broke("C03.R8: fewer than 2 reductions of the pointer offset in _mi_page_ptr_unalign (%d)" % n)
+    ctx.floor(R, 2)
+
+
 def run(ctx):
     ctx.explanation = ("Static decision of C03's code-shaped necessary conditions: flag set on every path returning an interior pointer; linear-inequality proof (and witness search) for the "
                        "over-allocation bound; structural form of the adjustment; guards of every consumer path; flag-byte integrity; exhaustive residue analysis (abstract interpretation of "
@@ -396,7 +416,7 @@ def run(ctx):
     for c in (["REL"] if ctx.tier == "quick" else ["REL", "SEC", "DBG"]):
         prog = ctx.prog(c)
         n0 = len(ctx.instances)
-        r1(ctx, prog); r2(ctx, prog); r3(ctx, prog); r4(ctx, prog); r5(ctx, prog); r6(ctx, prog); r7(ctx, prog)
+        r1(ctx, prog); r2(ctx, prog); r3(ctx, prog); r4(ctx, prog); r5(ctx, prog); r6(ctx, prog); r7(ctx, prog); r8(ctx, prog)
         if c != "REL":
             for i in ctx.instances[n0:]:
                 i["site"] += " [%s]" % c
